@@ -143,6 +143,15 @@ def run(res, tier, seed):
                      l2 + ".s": [l2 + ":", "    " + ins.format(u2)]}
             multi = True
             stats["label_tie_inputs"] = stats.get("label_tie_inputs", 0) + 1
+        if j in (4, 6) and not tie:
+            # diagnostics in the base file and in an included file whose name sorts before (j = 4) or after
+            # (j = 6) the base file's: what is shown without --all-files is the base file's items wherever
+            # they stand in the name-sorted list (seed C18-f took the head of the list)
+            inc = "a_lib.s" if j == 4 else "zz.s"
+            files = {"base.s": ["main:", "    li t0, 1", f'.include "{inc}"', "    li t2, 3", "    li a7, 10", "    ecall"],
+                     inc: ["    li t1, 2", "    addi x0, t1, 1"]}
+            multi = tie = True
+            stats["fixed_two_file_inputs"] = stats.get("fixed_two_file_inputs", 0) + 1
         if multi and not tie:
             files, mapping = split_tree(rng, s.rstrip("\n").split("\n"))
         if multi:
